@@ -43,7 +43,7 @@ DATA_DEPENDENT = {"redand", "redor", "redxor"}
 
 def tok_index(n):
     """tokens[K] / cont.tokens[K] -> K"""
-    n = peel(n)
+    n = resolve(n)
     if n.get("k") == "index":
         i = peel(n["i"])
         b = peel(n["e"])
@@ -83,6 +83,9 @@ def transparent(n):
 
 
 def passthrough(n):
+    # check_expr_type(e, line, tpe) returns e when the sorts agree
+    if (callee(n) or "") == P + "check_expr_type":
+        return 1
     return None
 
 
@@ -150,7 +153,9 @@ def run(ctx):
                 ctx.violation("R08.1", "%s:%s" % (fname, op), arm["sp"], "operator `%s` has an arm in %s but no row in the btor2 oracle" % (op, fname))
                 continue
             try:
-                got = ex.ev(arm["body"], {})
+                # the whole function specialised to this operator token: (checked expression, token count)
+                ex.spec = lambda e_, op=op: op if tok_index(e_) == 1 else None
+                got = ex.ev(f["body"], {})
             except Opaque as e:
                 ctx.violation("R08.1", "%s:%s" % (fname, op), arm["sp"], "UNRECOGNISED lowering of `%s` (%s: %s)" % (op, e.why, show(e.node)[:80]))
                 continue
